@@ -54,8 +54,9 @@ def local_seconds_of_day(t: int) -> int:
     return (t + berlin_offset(t)) % 86400
 
 
-def fmt(t: int, off: int, sep: str = "T", z: bool = False, frac: str = "", neg_zero: bool = False) -> str:
-    """ISO-8601 notation of instant t written with UTC offset `off` seconds"""
+def fmt(t: int, off: int, sep: str = "T", z: bool = False, frac: str = "", neg_zero: bool = False, basic: bool = False, offset_style: str = "colon") -> str:
+    """ISO-8601 notation of instant t written with UTC offset `off` seconds.
+    basic: YYYYMMDDTHHMMSS (no dashes / colons); offset_style: colon (+01:00) | nocolon (+0100) | hours (+01, only for whole hours)"""
     lt = t + off
     d, s = divmod(lt, 86400)
     y, m, dd = civil_from_days(d)
@@ -68,7 +69,14 @@ def fmt(t: int, off: int, sep: str = "T", z: bool = False, frac: str = "", neg_z
         a = abs(off)
         oh, orr = divmod(a, 3600)
         om, osec = divmod(orr, 60)
-        o = "%s%02d:%02d" % (sign, oh, om) + (":%02d" % osec if osec else "")
+        if offset_style == "hours" and om == 0 and osec == 0:
+            o = "%s%02d" % (sign, oh)
+        elif offset_style == "nocolon" and osec == 0:
+            o = "%s%02d%02d" % (sign, oh, om)
+        else:
+            o = "%s%02d:%02d" % (sign, oh, om) + (":%02d" % osec if osec else "")
+    if basic:
+        return "%04d%02d%02dT%02d%02d%02d%s%s" % (y, m, dd, h, mi, se, frac, o)
     return "%04d-%02d-%02d%s%02d:%02d:%02d%s%s" % (y, m, dd, sep, h, mi, se, frac, o)
 
 
